@@ -1588,7 +1588,12 @@ func (c *Ctx) cursorFooterProof(parse *ssa.Function) (how, bad string) {
 		if !ok {
 			return "", ""
 		}
-		bytesV := tupleParts(call)[0]
+		var bytesV ssa.Value
+		if ex := tupleParts(call)[0]; ex != nil {
+			bytesV = ex
+		} else if isByteSlice(call.Type()) {
+			bytesV = call // a reading method with one result (the error is kept in the cursor)
+		}
 		if bytesV == nil {
 			return "", "the bytes of a footer read at " + c.pos(call.Pos()) + " are not decoded"
 		}
